@@ -32,10 +32,26 @@ type prRec struct {
 	Tols [][4]int64 `json:"tols"` // tol num, tol den, bound num, bound den
 }
 
+// hitsSide: ok = the limit direction is stated exactly; d = integer direction;
+// devs = (tol num, tol den, allowed deviation num, den) per tolerance.
+type hitsSide struct {
+	Ok   bool       `json:"ok"`
+	D    []int64    `json:"d"`
+	Devs [][4]int64 `json:"devs"`
+}
+
 type hitsRec struct {
-	Ok    bool       `json:"ok"`
-	AuthS [][2]int64 `json:"auth2"` // squares of the authority scores
-	HubS  [][2]int64 `json:"hub2"`
+	Auth hitsSide `json:"auth"`
+	Hub  hitsSide `json:"hub"`
+}
+
+type diffRec struct {
+	Heat    []int64    `json:"heat"`
+	Sum     int64      `json:"sum"`
+	EquiCol [][2]int64 `json:"equicol"`
+	EquiRow [][2]int64 `json:"equirow"`
+	Tol     [2]int64   `json:"tol"`
+	Dev     [2]int64   `json:"dev"`
 }
 
 type netCase struct {
@@ -56,8 +72,7 @@ type netCase struct {
 	Hits   *hitsRec        `json:"hits"`
 	Lap    [][]int64       `json:"lap"`
 	Symlap [][][3]int64    `json:"symlap"`
-	Equi   [][2]int64      `json:"equi"` // equilibrium heat for the initial heat Heat
-	Heat   []int64         `json:"heat"`
+	Diff   *diffRec        `json:"diff"`
 	Raw    json.RawMessage `json:"-"`
 }
 
@@ -496,8 +511,14 @@ func replayNetwork(in *core.Lines, args []string, seed int64, sum *core.Summary)
 			}
 			if c.Dir {
 				k.pageRank(g.(graph.Directed))
+				if c.Hits != nil {
+					k.hits(g.(graph.Directed))
+				}
 			} else {
 				k.laplacians(g.(graph.Undirected))
+				if c.Diff != nil {
+					k.diffusion(g.(graph.Undirected))
+				}
 			}
 			k.rwLaplacian(g)
 			if !k.bad && wt == c.Wtd {
